@@ -1,5 +1,7 @@
 #!/bin/bash
 # usage: run1.sh <pkg> <Harness> [extra engine args]   -- runs one harness under gosymex and prints a summary
+# Only the harness files of <pkg> that belong to the harness's property are overlaid: cNN_*.go for VerifCNN...,
+# plus files without a cNN_ prefix (common.go, smoke.go, zz_main_test.go); EXTRA=c04_,c08_ adds other prefixes.
 # env: KNOWN=a,b  known-finding classes to enable;  NATIVE=1  also replay reported violations natively
 export PATH=/root/go/pkg/mod/golang.org/toolchain@v0.0.1-go1.24.0.linux-amd64/bin:$PATH GOTOOLCHAIN=local GOFLAGS=-mod=mod GOPROXY=off GOSUMDB=off CGO_ENABLED=0
 W=$(mktemp -d /verif/.work/run.XXXXXX)
@@ -7,17 +9,7 @@ trap 'rm -rf "$W"' EXIT
 (cd /verif/engine && go build -o "$W/gosymex" .) || exit 1
 cd /verif
 pkg=$1; h=$2; shift; shift
-python3 - "$W" <<'PY'
-import json,glob,os,sys
-W=sys.argv[1]
-rep={"/repo/internal/zzverif/zzverif.go":"/verif/zzverif/zzverif.go"}
-for d in glob.glob('/verif/harness/*'):
-    p=os.path.basename(d)
-    for f in glob.glob(d+'/*.go'):
-        b=os.path.basename(f)
-        rep[f"/repo/internal/{p}/zz_verif_{b}"]=f
-json.dump({"Replace":rep},open(W+'/ov.json','w'))
-PY
+python3 /verif/mkoverlay.py "$W/ov.json" "$pkg" "$h" || exit 1
 "$W/gosymex" -overlay "$W/ov.json" -pkgs ./internal/$pkg -harness github.com/juev/hledger-lsp/internal/$pkg.$h -out "$W/r.json" -known "$KNOWN" "$@" 2>&1 | grep -v "^WARNING conda" | tail -${TAIL:-15}
 [ -f "$W/r.json" ] || exit 1
 cp "$W/r.json" /verif/.work/last-$h.json
